@@ -42,13 +42,14 @@ _CTX = {}
 
 def context(c):
     """Data, states, real trees and pi for a configuration (cached per process)."""
-    key = repr(sorted((k, v) for k, v in c.items() if k in ("n", "samples", "grid", "style", "data_seed", "alpha", "outlier_prob")))
+    key = repr(sorted((k, v) for k, v in c.items() if k in ("n", "samples", "grid", "style", "data_seed", "alpha", "outlier_prob", "hetero")))
     if key in _CTX:
         return _CTX[key]
     from phyclone.tree import FSCRPDistribution, TreeJointDistribution
 
     r = random.Random(c["data_seed"])
-    data = bridge.make_data(r, c["n"], samples=c["samples"], grid=c["grid"], style=c["style"], outlier_prob=c["outlier_prob"])
+    data = bridge.make_data(r, c["n"], samples=c["samples"], grid=c["grid"], style=c["style"], outlier_prob=c["outlier_prob"],
+                            hetero=bool(c.get("hetero")))
     forests = models.enumerate_forests(range(c["n"]), outliers=c["outlier_prob"] > 0)
     tree_dist = TreeJointDistribution(FSCRPDistribution(c["alpha"]))
     trees = [bridge.build_tree(f, data) for f in forests]
